@@ -75,7 +75,7 @@ fn rebuild_all(acc: &mut Acc, input: &[u8], h: &v2::Header) {
     // (C) decoded items, when the section is well-formed
     let wf = otlv::well_formed(h.tlv_bytes());
     if wf {
-        let items: Vec<_> = h.tlvs().collect();
+        let items: Vec<_> = h.tlvs().take(h.tlv_bytes().len() / 3 + 2).collect(); // bounded: a runaway iterator is C11's business, not a reason to hang here
         if items.iter().all(|i| i.is_ok()) {
             let mut bld = v2::Builder::new(vc, afp).write_payload(h.address_bytes());
             for it in items.iter().flatten() {
